@@ -169,7 +169,8 @@ def build(T):
     r = t32('CpsThumbT2', '11110 0 1110 1 0 (1111) 10 (0) 0 (0) imod:2 M A I F mode:5', cps_op,
             unpred=lambda f, c: lor(cps_up(f, c), c.in_it_block()), when=lambda f: lor(f['imod'] != 0, f['M'] == 1))
     r.unconditional = True
-    # ---- exception return
+    # ---- exception return (the ARM forms are the data-processing encodings with S = 1 and Rd = PC: "the special rules when
+    # the destination is the PC" of C01 as well)
     arm('SubsPcLrArmA1', '%s 001 opcode:4 1 Rn:4 1111 imm12:12' % C,
         lambda c, f: op_subs_pc_lr_arm(c, f['opcode'], f['Rn'], P.ARMExpandImm(f['imm12'])), when=nu,
         unpred=lambda f, c: land(bits(f['opcode'], 3, 2) == 0b10))          # TST/TEQ/CMP/CMN space with Rd = PC
